@@ -409,7 +409,7 @@ class C03(Check):
                         # piecewise-linear forcing has a kink at every sample: a high-order pair steps across kinks
                         # and its error estimate no longer bounds the error; what the RHS read at every evaluation
                         # is checked exactly by L-rhs, so the solution-level law is only a coarse net here
-                        bound = bound + 1e-4 * np.max(np.abs(sol.y))
+                        bound = bound + 5e-3 * max(1.0, np.max(np.abs(sol.y)))
                     ratio = float(np.max(np.abs(got - refv) / bound))
                     mk = 'adaptive_err_over_bound' + ('_forced' if cfg['input'] else '')
                     res.setdefault('maxima', {})[mk] = max(ratio, res.get('maxima', {}).get(mk, 0.0))
